@@ -184,6 +184,18 @@ func Vals(key uint16, shape, n int, seed uint64) []uint32 {
 			}
 			pos += l + 2 + uint32(r.Intn(40))
 		}
+	case 7: // one value in each of n consecutive chunks: many chunks, long key tables
+		if n > 6000 {
+			n = 6000
+		}
+		l := uint32(r.Intn(65536))
+		for i := 0; i < n; i++ {
+			k := uint32(key) + uint32(i)
+			if k > 0xFFFF {
+				break
+			}
+			out = append(out, k<<16|l)
+		}
 	case 5: // top of the chunk downwards
 		for i := 0; i < n && i < 65536; i++ {
 			out = append(out, base|uint32(65535-i))
@@ -194,7 +206,7 @@ func Vals(key uint16, shape, n int, seed uint64) []uint32 {
 	return out
 }
 
-const numShapes = 7
+const numShapes = 8
 
 func (w *World) slot(r *Rng) int { return r.Intn(len(w.B)) }
 
